@@ -222,6 +222,25 @@ PROPS = {
     ),
     "C17": dict(
         props="Props/C17.v", tables=["core", "metrics"],
+        src=["py_FMMetrics__is_group_feature", "py_FMMetrics__is_grouped", "py_FMMetrics__prepare",
+             "py_FMMetrics_abstract_compound_features", "py_FMMetrics_abstract_features",
+             "py_FMMetrics_abstract_leaf_features", "py_FMMetrics_alternative_groups",
+             "py_FMMetrics_avg_children_per_feature", "py_FMMetrics_avg_constraints_per_feature",
+             "py_FMMetrics_branching_factor", "py_FMMetrics_calculate_metamodel_metrics",
+             "py_FMMetrics_cardinality_groups", "py_FMMetrics_complex_constraints", "py_FMMetrics_compound_features",
+             "py_FMMetrics_concrete_compound_features", "py_FMMetrics_concrete_features",
+             "py_FMMetrics_concrete_leaf_features", "py_FMMetrics_constraints_per_features",
+             "py_FMMetrics_cross_tree_constraints", "py_FMMetrics_depth_tree", "py_FMMetrics_excludes_constraints",
+             "py_FMMetrics_extra_constraint_representativeness", "py_FMMetrics_feature_groups", "py_FMMetrics_features",
+             "py_FMMetrics_get_feature_ancestors", "py_FMMetrics_grouped_features", "py_FMMetrics_leaf_features",
+             "py_FMMetrics_mandatory_features", "py_FMMetrics_max_children_per_feature",
+             "py_FMMetrics_max_constraints_per_feature", "py_FMMetrics_max_depth_tree", "py_FMMetrics_mean_depth_tree",
+             "py_FMMetrics_median_depth_tree", "py_FMMetrics_metric", "py_FMMetrics_metric_methods",
+             "py_FMMetrics_min_children_per_feature", "py_FMMetrics_min_constraints_per_feature",
+             "py_FMMetrics_mutex_groups", "py_FMMetrics_optional_features", "py_FMMetrics_or_groups",
+             "py_FMMetrics_pseudo_complex_constraints", "py_FMMetrics_requires_constraints", "py_FMMetrics_root_feature",
+             "py_FMMetrics_simple_constraints", "py_FMMetrics_solitary_features",
+             "py_FMMetrics_strict_complex_constraints", "py_FMMetrics_top_features", "py_FMMetrics_tree_relationships"],
         suites=[suite_m.run],
         rule=("suite O-metrics: FMMetrics through Metrics.execute on ONE re-used operation object over the whole run, with "
               "random subsets of the method names as filter, vs the model's [report]; every entry compared (name, result, "
